@@ -201,6 +201,34 @@ pub fn hostile_spec(words: &[u32]) -> HostileSpec {
     sb.ev(Ev::Apply(vec![al(id(B, 0))], true));
     sb.ev(Ev::Leave);
     base.seed_hists.push(sb.done());
+    // user error: the instance took over the identity of its only peer, which
+    // is now an active member of its own list, and is mid-probe on it
+    let mut sb = SeedBuilder::new(&base);
+    sb.ev(Ev::Apply(vec![al(id(B, 0))], true));
+    sb.ev(Ev::ChangeId(id(B, 0)));
+    // another member brings it back online; probe rounds until the round
+    // that picks the instance's own identity is past its indirect stage
+    sb.ev(Ev::Apply(vec![al(id(C, 0))], false));
+    for _ in 0..4 {
+        // (the most recently scheduled timers: the earlier ones are stale)
+        let Some(t) = sb.timers.iter().rev().find(|t| matches!(t, TimerKey::ProbeRandomMember(_))).copied() else { break };
+        sb.ev(Ev::Timer(t));
+        let snap = sb.f.verif_snapshot();
+        let Some(target) = snap.probe_target else { break };
+        let own = *target.id() == *sb.f.identity();
+        if !own {
+            let me = *sb.f.identity();
+            let ack = dgram(&sb.codec, *target.id(), target.incarnation(), me, Message::Ack(snap.probe_number), None, &[]);
+            sb.ev(Ev::Data(ack));
+        }
+        if let Some(t) = sb.timers.iter().rev().find(|t| matches!(t, TimerKey::SendIndirectProbe { .. })).copied() {
+            sb.ev(Ev::Timer(t));
+        }
+        if own {
+            break;
+        }
+    }
+    base.seed_hists.push(sb.done());
     // long-lived instances: timer token about to wrap (active / defunct)
     // (quick tier: only the defunct one, a single call away from the wrap)
     let quick = std::env::var("VERIF_C06_TIER").map(|t| t != "thorough").unwrap_or(false);
@@ -468,7 +496,7 @@ pub fn c06(tier: &str) -> Report {
     // quick: the plain-release pass explores one level less (it exists to
     // compare builds and to catch what only shows without debug assertions)
     let lim = if th {
-        Limits { max_depth: 4, seed_depth: 4, max_states: 12_000_000, max_wall_s: 1500.0 }
+        Limits { max_depth: 4, seed_depth: 4, max_states: 12_000_000, max_wall_s: 900.0 }
     } else if plain_pass {
         Limits { max_depth: 2, seed_depth: 2, max_states: 3_000_000, max_wall_s: 60.0 }
     } else {
